@@ -2,7 +2,8 @@
 import itertools, time
 from . import see, oracles
 from .see import (VM, GSeq, MSet, MList, var, b_and, b_or, b_not, b_xor, b_iff, fold_b, is_c, alts_of, enable_tt, TT)
-from .harness import harness_ctx, exc_guard, unwind_guard, exc_kinds, GRAPH_MODS
+from .harness import harness_ctx, exc_guard, unwind_guard, exc_kinds, GRAPH_MODS, GView
+from .see import fold as sfold
 from .decide import Decider, start_lemma_log
 from .common import write_replay, run_replay, SEED
 
@@ -181,39 +182,34 @@ def reach_task(n, fold, what):
         twin = b_and(impl[n - 1], b_not(x[n - 1]))
     elif what == 'reverse':
         r = ctx.call(ctx.getattr1(g, 'get_reversed_graph'), [], {})
-        rn = r.attrs['_next']
-        impl = [b_and(rn.present.get(i, False), fold_b(rn.vals[i], lambda s: s.get(j))) if i in rn.present else False
-                for i in range(n) for j in range(n)]
-        bad += [b_not(rn.present.get(i, False)) for i in range(n)] + [p for k, p in rn.present.items() if k not in range(n)]
-        rr = ctx.call(ctx.getattr1(r, 'get_reversed_graph'), [], {})
-        rrn = rr.attrs['_next']
-        impl += [fold_b(rrn.vals[i], lambda s: s.get(j)) if i in rrn.present else False for i in range(n) for j in range(n)]
-        bad += [b_not(rrn.present.get(i, False)) for i in range(n)]
-        shared = any(rn.vals[i] is snap_obj[j] or rrn.vals[i] is snap_obj[j] for i in range(n) for j in range(n) if i in rn.present and i in rrn.present)
+        rv = GView(r)
+        impl = [rv.member(i, j) for i in range(n) for j in range(n)]
+        bad += [b_not(rv.node(i)) for i in range(n)] + [rv.foreign_keys(range(n)), rv.foreign_members(range(n))]
+        rr = ctx.call(sfold(r, lambda o: ctx.getattr1(o, 'get_reversed_graph')), [], {})
+        rrv = GView(rr)
+        impl += [rrv.member(i, j) for i in range(n) for j in range(n)]
+        bad += [b_not(rrv.node(i)) for i in range(n)] + [rrv.foreign_keys(range(n)), rrv.foreign_members(range(n))]
+        shared = any(q is o for q in rv.set_objects() + rrv.set_objects() for o in snap_obj.values()) or any(d is nxt for d in rv.dict_objects() + rrv.dict_objects())
         twin = b_and(impl[1], b_not(e[0][1]))
     elif what == 'subgraph':
         s = ctx.call(ctx.getattr1(g, 'get_subgraph'), [X], {})
-        sn = s.attrs['_next']
-        impl = [sn.present.get(i, False) for i in range(n)]
-        impl += [b_and(sn.present.get(i, False), fold_b(sn.vals[i], lambda q: q.get(j))) if i in sn.present else False
-                 for i in range(n) for j in range(n)]
-        bad += [p for k, p in sn.present.items() if k not in range(n)]
-        for i in range(n):
-            if i in sn.present:
-                for (ga, q) in alts_of(sn.vals[i]):
-                    bad += [b_and(sn.present[i], ga, b) for k, b in q.bits.items() if k not in range(n)]
-        shared = any(sn.vals[i] is snap_obj[j] for i in sn.present for j in range(n))
+        sv = GView(s)
+        impl = [sv.node(i) for i in range(n)]
+        impl += [sv.member(i, j) for i in range(n) for j in range(n)]
+        bad += [sv.foreign_keys(range(n)), sv.foreign_members(range(n)), b_not(sv.defined)]
+        shared = any(q is o for q in sv.set_objects() for o in snap_obj.values()) or any(d is nxt for d in sv.dict_objects())
         twin = b_and(impl[0], b_not(impl[1]))
     elif what == 'clone':
         c = ctx.call(ctx.getattr1(g, 'clone'), [], {})
-        cn = c.attrs['_next']
-        impl = [fold_b(cn.vals[i], lambda q: q.get(j)) if i in cn.present else False for i in range(n) for j in range(n)]
-        bad += [b_not(cn.present.get(i, False)) for i in range(n)] + [p for k, p in cn.present.items() if k not in range(n)]
-        shared = (c is g) or (cn is nxt) or any(cn.vals[i] is snap_obj[j] for i in cn.present for j in range(n))
-        # independence: mutate the clone through the real API, the original must not move
-        ctx.call(ctx.getattr1(c, 'add_node'), ['fresh'], {})
-        for (ga, q) in alts_of(cn.vals[0]):
-            q.put('mut', True)
+        cv = GView(c)
+        impl = [cv.member(i, j) for i in range(n) for j in range(n)]
+        bad += [b_not(cv.node(i)) for i in range(n)] + [cv.foreign_keys(range(n)), cv.foreign_members(range(n))]
+        shared = any(x is g for _, x in alts_of(c)) or any(d is nxt for d in cv.dict_objects()) or any(q is o for q in cv.set_objects() for o in snap_obj.values())
+        # independence: mutate the clone through the real API and directly, the original must not move
+        ctx.call(sfold(c, lambda o: ctx.getattr1(o, 'add_node')), ['fresh'], {})
+        for q in cv.set_objects():
+            if isinstance(q, MSet):
+                q.put('mut', True)
         twin = impl[1]
     bad += unchanged()
     bad.append(exc_guard(fr))
